@@ -45,6 +45,7 @@ class StepBudget:
 
     def __exit__(self, *a):
         sys.settrace(self.prev)
+        LAST_STEPS[0] = self.n
         return False
 
 
